@@ -47,17 +47,34 @@ def stratified(progs, per_group, seed):
     return out, len(groups)
 
 
-def wrap(P, pid):
-    """append a transparent final probe: root = seq(P, T)"""
+def wrap(P, pid, prefix=()):
+    """root = seq(prefix..., seq(P, T)): option-setting leaves first, a transparent final probe last.
+    prefix: list of leaf dicts (t, n, m) or ready-made sub-programs (list of nodes with root at index 1)"""
     P = [dict(n) for n in P]
-    L = len(P)
-    P.append({"t": "T", "a": 0, "b": 0, "c": 0, "n": 0, "m": 0, "foc": 0})
-    P.append({"t": "seq", "a": 1, "b": L + 1, "c": 0, "n": 0, "m": 0, "foc": 0})
-    return {"id": pid, "P": P, "root": L + 2}
+    def leaf(t, n=0, m=0):
+        P.append({"t": t, "a": 0, "b": 0, "c": 0, "n": n, "m": m, "foc": 0})
+        return len(P)
+    def seq(a, b):
+        P.append({"t": "seq", "a": a, "b": b, "c": 0, "n": 0, "m": 0, "foc": 0})
+        return len(P)
+    def graft(nodes):
+        off = len(P)
+        for nd in nodes:
+            nd = dict(nd)
+            for f in ("a", "b", "c"):
+                if nd[f]:
+                    nd[f] += off
+            nd.setdefault("foc", 0)
+            P.append(nd)
+        return off + 1
+    root = seq(1, leaf("T"))
+    for item in reversed(list(prefix)):
+        root = seq(graft(item) if isinstance(item, list) else leaf(*item), root)
+    return {"id": pid, "P": P, "root": root}
 
 
-def prog_id(P):
-    return "I" + hashlib.sha1(json.dumps(P, sort_keys=True).encode()).hexdigest()[:14]
+def prog_id(P, prefix=()):
+    return "I" + hashlib.sha1(json.dumps([P, list(prefix)], sort_keys=True).encode()).hexdigest()[:14]
 
 
 def predict(progs, dev=(), check_props=True, workers=None, live=False):
@@ -90,8 +107,19 @@ def observe(shell, script, front="c", timeout=10):
             "signal": r["signal"], "err": r["err"][-400:]}
 
 
+def _norm_fatal(line):
+    """identify statuses 1 and 127 (programs that take a fatal-expansion exit; see Interp.tla `fe`)"""
+    import re
+    return re.sub(r":(1|127)$", ":F", line) if isinstance(line, str) else ("F" if line in (1, 127) else line)
+
+
 def matches(obs, pred):
-    return (not obs["timeout"]) and obs["lines"] == [marker(e) for e in pred["out"]] and obs["rc"] == pred["exit"]
+    if obs["timeout"]:
+        return False
+    exp = [marker(e) for e in pred["out"]]
+    if pred["gh"].get("fatal", 0) > 0:
+        return [_norm_fatal(l) for l in obs["lines"]] == [_norm_fatal(l) for l in exp] and _norm_fatal(obs["rc"]) == _norm_fatal(pred["exit"])
+    return obs["lines"] == exp and obs["rc"] == pred["exit"]
 
 
 def run_cases(progs, preds, fronts=("c",), shells=("bash", "brush")):
